@@ -67,6 +67,31 @@ SameInstantZ(kind, a, b) ==
   /\ p.date = q.date /\ p.hh = q.hh /\ p.mm = q.mm /\ p.ss = q.ss
   /\ StripTrailingZeros(p.frac) = StripTrailingZeros(q.frac)
 
+(***************************************************************************)
+(* Named deviations of the CER/DER time encoder (open findings F22, F32):  *)
+(* it scans the fraction backwards from its 4th digit (or its last one)    *)
+(* and deletes EVERY zero it meets, not only trailing ones, and never looks *)
+(* at digits past the 4th.  LibTimeOut reproduces its output exactly, so   *)
+(* only outputs equal to it are attributed to the findings:                *)
+(*   F22  a zero inside the fraction was deleted (another instant)         *)
+(*   F32  trailing zeros from the 5th digit on were kept (not canonical)   *)
+(***************************************************************************)
+NonZero(c) == c # 48
+LibFrac(f) == LET w == IF Len(f) < 4 THEN Len(f) ELSE 4
+              IN SelectSeq(SubSeq(f, 1, w), NonZero) \o SubSeq(f, w + 1, Len(f))
+LibTimeOut(s) ==      \* s = <main> "." <frac> "Z"
+  LET fi == IndexIn(s, {46})
+      main == SubSeq(s, 1, fi - 1)
+      frac == SubSeq(s, fi + 1, Len(s) - 1)
+  IN IF fi = 0 THEN s ELSE main \o (IF LibFrac(frac) = <<>> THEN <<>> ELSE <<46>> \o LibFrac(frac)) \o <<90>>
+LibTimeDevs(s) ==
+  LET fi == IndexIn(s, {46})
+      frac == IF fi = 0 THEN <<>> ELSE SubSeq(s, fi + 1, Len(s) - 1)
+      w == IF Len(frac) < 4 THEN Len(frac) ELSE 4
+      t == StripTrailingZeros(frac)
+  IN (IF \E i \in 1..w : frac[i] = 48 /\ i < Len(t) THEN {"F22"} ELSE {}) \cup
+     (IF Len(frac) > 4 /\ frac[Len(frac)] = 48 THEN {"F32"} ELSE {})
+
 (* the input can be put into canonical form without arithmetic: UTC, seconds present, decimal point *)
 Canonicalizable(kind, s) == LET p == ParseTime(kind, s) IN p.ok /\ p.zone = "Z" /\ p.ss # -1 /\ ~p.comma
 NotUTC(kind, s) == LET p == ParseTime(kind, s) IN p.ok /\ p.zone # "Z"
